@@ -317,34 +317,51 @@ fn report(w: &mut Worker, r: ExploreResult, cj: Value, nontrivial_prog: bool, cl
 // ---------------------------------------------------------------------------------------------
 
 /// a loop nest with fixed iteration counts; every loop counts its iterations in `k<id>`, adds to the
-/// global counter `n` and appends `<id>=<iterations>` to the trace variable `t` when it is left
+/// global counter `n` and appends `<id>=<iterations>` to the trace variable `t` when it is left.
+/// `leaf` is a small if-block executed in every iteration (0: none; 1: `if true` without else;
+/// 2: `if false` / `else`; 3: `if false` / `elseif true` as the last branch): its taken branch counts in
+/// `m`, its other branches set `bad`.
 #[derive(Clone, Debug)]
 enum Lp {
-    W(u32, usize, Vec<Lp>),
-    F(u32, usize, Vec<Lp>),
-    /// an `if true` block around the nested loops
-    I(Vec<Lp>),
+    W(u32, usize, u8, Vec<Lp>),
+    F(u32, usize, u8, Vec<Lp>),
+    /// an if-block around the nested loops, which sit in the branch that is taken; the branches after
+    /// it must not run (they set `bad`). 0: `if true` .. `end`; 1: `if true` .. `else` bad; 2: `if false`
+    /// bad `else` ..; 3: `if false` bad `elseif true` .. `elseif true` bad `else` bad
+    I(u8, Vec<Lp>),
+}
+
+fn leaf_render(leaf: u8, generic_end: bool, out: &mut Vec<String>) {
+    let end = if generic_end { "end" } else { "end_if" };
+    match leaf {
+        1 => out.extend(["if true", "m = calc ${m} + 1", end].iter().map(|s| s.to_string())),
+        2 => out.extend(["if false", "bad = set leaf", "else", "m = calc ${m} + 1", end].iter().map(|s| s.to_string())),
+        3 => out.extend(["if false", "bad = set leaf", "elseif true", "m = calc ${m} + 1", end].iter().map(|s| s.to_string())),
+        _ => (),
+    }
 }
 
 fn lp_render(l: &Lp, generic_end: bool, out: &mut Vec<String>) {
     match l {
-        Lp::W(id, n, inner) => {
+        Lp::W(id, n, leaf, inner) => {
             out.push(format!("k{} = set 0", id));
             out.push(format!("while less_than ${{k{}}} {}", id, n));
             out.push(format!("k{id} = calc ${{k{id}}} + 1", id = id));
             out.push("n = calc ${n} + 1".to_string());
+            leaf_render(*leaf, generic_end, out);
             for i in inner {
                 lp_render(i, generic_end, out);
             }
             out.push(if generic_end { "end".into() } else { "end_while".into() });
             out.push(format!("t = set \"${{t}} {id}=${{k{id}}}\"", id = id));
         }
-        Lp::F(id, n, inner) => {
+        Lp::F(id, n, leaf, inner) => {
             out.push(format!("k{} = set 0", id));
             out.push(format!("r{} = range 0 {}", id, n));
             out.push(format!("for x{id} in ${{r{id}}}", id = id));
             out.push(format!("k{id} = calc ${{k{id}}} + 1", id = id));
             out.push("n = calc ${n} + 1".to_string());
+            leaf_render(*leaf, generic_end, out);
             for i in inner {
                 lp_render(i, generic_end, out);
             }
@@ -352,33 +369,48 @@ fn lp_render(l: &Lp, generic_end: bool, out: &mut Vec<String>) {
             out.push(format!("release ${{r{}}}", id));
             out.push(format!("t = set \"${{t}} {id}=${{k{id}}}\"", id = id));
         }
-        Lp::I(inner) => {
-            out.push("if true".into());
+        Lp::I(kind, inner) => {
+            let end = if generic_end { "end" } else { "end_if" };
+            match kind {
+                0 | 1 => out.push("if true".into()),
+                2 => out.extend(["if false", "bad = set then", "else"].iter().map(|s| s.to_string())),
+                _ => out.extend(["if false", "bad = set then", "elseif true"].iter().map(|s| s.to_string())),
+            }
             for i in inner {
                 lp_render(i, generic_end, out);
             }
-            out.push(if generic_end { "end".into() } else { "end_if".into() });
+            out.push("t = set \"${t} |\"".into());
+            match kind {
+                1 => out.extend(["else", "bad = set else"].iter().map(|s| s.to_string())),
+                3 => out.extend(["elseif true", "bad = set elseif", "else", "bad = set else"].iter().map(|s| s.to_string())),
+                _ => (),
+            }
+            out.push(end.into());
         }
     }
 }
 
 /// the tree walker for loop nests
-fn lp_walk(l: &Lp, n: &mut u64, t: &mut String, k: &mut std::collections::BTreeMap<String, String>) {
+fn lp_walk(l: &Lp, n: &mut u64, m: &mut u64, t: &mut String, k: &mut std::collections::BTreeMap<String, String>) {
     match l {
-        Lp::W(id, cnt, inner) | Lp::F(id, cnt, inner) => {
+        Lp::W(id, cnt, leaf, inner) | Lp::F(id, cnt, leaf, inner) => {
             for _ in 0..*cnt {
                 *n += 1;
+                if *leaf > 0 {
+                    *m += 1;
+                }
                 for i in inner {
-                    lp_walk(i, n, t, k);
+                    lp_walk(i, n, m, t, k);
                 }
             }
             k.insert(format!("k{}", id), cnt.to_string());
             t.push_str(&format!(" {}={}", id, cnt));
         }
-        Lp::I(inner) => {
+        Lp::I(_, inner) => {
             for i in inner {
-                lp_walk(i, n, t, k);
+                lp_walk(i, n, m, t, k);
             }
+            t.push_str(" |");
         }
     }
 }
@@ -386,21 +418,29 @@ fn lp_walk(l: &Lp, n: &mut u64, t: &mut String, k: &mut std::collections::BTreeM
 fn long_nests(tier: Tier) -> Vec<(String, Vec<Lp>)> {
     let counts: Vec<usize> = tier.pick(vec![0, 1, 40, 70, 300], vec![0, 1, 40, 70, 300, 1000, 5000]);
     let mut out = vec![];
-    let mk = |kind: u8, id: u32, n: usize, inner: Vec<Lp>| if kind == 0 { Lp::W(id, n, inner) } else { Lp::F(id, n, inner) };
+    let mk = |kind: u8, id: u32, n: usize, leaf: u8, inner: Vec<Lp>| if kind == 0 { Lp::W(id, n, leaf, inner) } else { Lp::F(id, n, leaf, inner) };
     for &n in &counts {
         for a in 0..2u8 {
-            out.push((format!("single {} x{}", a, n), vec![mk(a, 1, n, vec![])]));
+            out.push((format!("single {} x{}", a, n), vec![mk(a, 1, n, 0, vec![])]));
+            // an if-block around a long loop whose body runs a small if-block in every iteration
+            for wrap in 0..4u8 {
+                for leaf in 1..4u8 {
+                    out.push((format!("if{} around {} x{} with leaf if{}", wrap, a, n, leaf), vec![Lp::I(wrap, vec![mk(a, 1, n, leaf, vec![])])]));
+                }
+            }
             for b in 0..2u8 {
                 // outer loop due three iterations, inner loop running n times in each of them
-                out.push((format!("nest {}{} 3x{}", a, b, n), vec![mk(a, 1, 3, vec![mk(b, 2, n, vec![])])]));
+                out.push((format!("nest {}{} 3x{}", a, b, n), vec![mk(a, 1, 3, 0, vec![mk(b, 2, n, 0, vec![])])]));
                 // the long loop outside
-                out.push((format!("nest {}{} {}x2", a, b, n), vec![mk(a, 1, n, vec![mk(b, 2, 2, vec![])])]));
+                out.push((format!("nest {}{} {}x2", a, b, n), vec![mk(a, 1, n, 0, vec![mk(b, 2, 2, 0, vec![])])]));
                 // two inner loops one after the other
-                out.push((format!("nest {}[{}{}] 3x{}", a, b, b, n), vec![mk(a, 1, 3, vec![mk(b, 2, n, vec![]), mk(1 - b, 3, n, vec![])])]));
-                // the inner loop inside a branch
-                out.push((format!("nest {}if{} 3x{}", a, b, n), vec![mk(a, 1, 3, vec![Lp::I(vec![mk(b, 2, n, vec![])])])]));
+                out.push((format!("nest {}[{}{}] 3x{}", a, b, b, n), vec![mk(a, 1, 3, 0, vec![mk(b, 2, n, 0, vec![]), mk(1 - b, 3, n, 0, vec![])])]));
+                // the inner loop inside a branch, with and without branches after it
+                for wrap in [0u8, 1, 3] {
+                    out.push((format!("nest {}if{}{} 3x{}", a, wrap, b, n), vec![mk(a, 1, 3, 0, vec![Lp::I(wrap, vec![mk(b, 2, n, 1, vec![])])])]));
+                }
                 // three levels, the long loop in the middle
-                out.push((format!("nest {}{}{} 2x{}x2", a, b, a, n), vec![mk(a, 1, 2, vec![mk(b, 2, n, vec![mk(a, 3, 2, vec![])])])]));
+                out.push((format!("nest {}{}{} 2x{}x2", a, b, a, n), vec![mk(a, 1, 2, 0, vec![mk(b, 2, n, 0, vec![mk(a, 3, 2, 2, vec![])])])]));
             }
         }
     }
@@ -408,7 +448,7 @@ fn long_nests(tier: Tier) -> Vec<(String, Vec<Lp>)> {
 }
 
 fn long_script(nest: &[Lp], generic_end: bool) -> String {
-    let mut lines = vec!["n = set 0".to_string(), "t = set \"\"".to_string()];
+    let mut lines = vec!["n = set 0".to_string(), "m = set 0".to_string(), "t = set \"\"".to_string()];
     for l in nest {
         lp_render(l, generic_end, &mut lines);
     }
@@ -421,7 +461,7 @@ fn long_run_observed(text: &str) -> Result<std::collections::BTreeMap<String, St
     match guarded(|| duckscript::runner::run_script(text, ctx, Some(env))) {
         Err(p) => Err(format!("panic: {}", p)),
         Ok(Err(e)) => Err(format!("the run failed: {}", e)),
-        Ok(Ok(c)) => Ok(c.variables.iter().filter(|(k, _)| k.as_str() == "n" || k.as_str() == "t" || (k.starts_with('k') && k[1..].chars().all(|c| c.is_ascii_digit()))).map(|(k, v)| (k.clone(), v.clone())).collect()),
+        Ok(Ok(c)) => Ok(c.variables.iter().filter(|(k, _)| k.as_str() == "n" || k.as_str() == "m" || k.as_str() == "bad" || k.as_str() == "t" || (k.starts_with('k') && k[1..].chars().all(|c| c.is_ascii_digit()))).map(|(k, v)| (k.clone(), v.clone())).collect()),
     }
 }
 
@@ -435,12 +475,14 @@ fn long_runs(w: &mut Worker) {
             let cj = json!({"kind": "long-run", "name": name, "script": text});
             w.begin(|| cj.clone());
             let mut n = 0u64;
+            let mut m = 0u64;
             let mut t = String::new();
             let mut exp = std::collections::BTreeMap::new();
             for l in &nest {
-                lp_walk(l, &mut n, &mut t, &mut exp);
+                lp_walk(l, &mut n, &mut m, &mut t, &mut exp);
             }
             exp.insert("n".into(), n.to_string());
+            exp.insert("m".into(), m.to_string());
             exp.insert("t".into(), t);
             w.add_transitions(1);
             w.add_traces(1);
@@ -588,7 +630,7 @@ pub fn crash_sig(_case: &Value, kind: &str) -> String {
     kind.to_string()
 }
 
-pub const RULE: &str = "programs: every well-nested forest of blocks {if with 0-2 elseif and optional else, while, for-in} with 1..N blocks and depth <= 3, an emit before / inside / after every block, leaf bodies with and without an emit, condition forms {value ${c}, ${c} and ${d}, command `ans`, negated command `not ans`} uniform and rotating; single-block programs with the full product of every spelling of every keyword (alias, block-specific end, generic end, full command name), larger ones with rotated spellings so that every keyword occurrence meets each of its spellings; for every program every assignment of truth values to condition evaluations and of lengths {0,1,2} to for-in arrays with a bounded number of deviations from the default (false / empty) within a horizon of choice points. Plus long-running loop nests (while / for-in, single, nested two and three deep, two inner loops in sequence, an inner loop inside a branch; iteration counts {0,1,40,70,300} quick, up to 5000 thorough; generic and block-specific end) whose counters and exit trace are compared with the same nest walked in Rust. Every execution on the real runner is compared with a tree-walking interpreter of the same AST run on the same answers: emit trace with loop-variable values and final variables (loop variables after their loop and handle names masked). evaluations = rendered programs; transitions = executions; states = distinct (trace length, deviations) classes";
+pub const RULE: &str = "programs: every well-nested forest of blocks {if with 0-2 elseif and optional else, while, for-in} with 1..N blocks and depth <= 3, an emit before / inside / after every block, leaf bodies with and without an emit, condition forms {value ${c}, ${c} and ${d}, command `ans`, negated command `not ans`} uniform and rotating; single-block programs with the full product of every spelling of every keyword (alias, block-specific end, generic end, full command name), larger ones with rotated spellings so that every keyword occurrence meets each of its spellings; for every program every assignment of truth values to condition evaluations and of lengths {0,1,2} to for-in arrays with a bounded number of deviations from the default (false / empty) within a horizon of choice points. Plus long-running loop nests (while / for-in, single, nested two and three deep, two inner loops in sequence, an inner loop inside a branch with and without branches after it, a small if-block (no else / else taken / last elseif taken) in every iteration of a long loop that sits in a branch of an if / if-else / elseif chain whose later branches must not run; iteration counts {0,1,40,70,300} quick, up to 5000 thorough; generic and block-specific end) whose counters and exit trace are compared with the same nest walked in Rust. Every execution on the real runner is compared with a tree-walking interpreter of the same AST run on the same answers: emit trace with loop-variable values and final variables (loop variables after their loop and handle names masked). evaluations = rendered programs; transitions = executions; states = distinct (trace length, deviations) classes";
 pub const ASSUMPTIONS: &[&str] = &["ill-nested programs, arrays modified while iterated and jumps into blocks are outside the property", "value-form conditions of an if/elseif chain are computed in front of the block"];
 pub const EXHAUSTIVE: bool = true;
 pub const WALL_CAP_S: (u64, u64) = (55, 1500);
